@@ -6,4 +6,6 @@ export GOFLAGS=-mod=mod GOPROXY=off GOSUMDB=off GOTOOLCHAIN=local
 go build ./... 
 go vet ./pat ./rig >/dev/null 2>&1 || true
 for d in c*/; do go test -c -vet=off -o /dev/null ./$d >/dev/null 2>&1 || true; done
+# the two schedule checks are built with the race detector: warm that part of the build cache too
+for d in c06 c07; do go test -race -c -vet=off -o /dev/null ./$d >/dev/null 2>&1 || true; done
 echo setup done
